@@ -63,12 +63,19 @@ func init() {
 			"logical steps (pre, evicted-j / removed-j, post); every listed message's Source() yields exactly Size() bytes equal to what " +
 			"was stored; then AddMessage to the target succeeds and is listed and readable with the survivors (cap applied). A case is " +
 			"non-trivial when >=3 crash states were judged; distinct by (kind, big index, body class, reader shape, neighbour level, " +
-			"neighbour present, set of hook steps reached).",
+			"neighbour present, set of hook steps reached). Stream `restart` (48 quick / 400 thorough episodes, SAMPLED): crash and restart " +
+			"in FRESH processes within one wall-clock second - process 1 delivers 1-3 complete messages to a mailbox and dies by SIGKILL " +
+			"in one more delivery (at one of its 5 hook steps, after k body bytes, or not at all); process 2, released at once, opens the " +
+			"same store path and delivers 1-2 messages (one shorter than the interrupted one); both start their id counter at 0000. The " +
+			"harness then opens the store: the complete messages listed first and in order, the interrupted one complete or absent, then " +
+			"process 2's; ids distinct; every content exactly the bytes of its delivery; VisitMailboxes agrees. Whether the two processes " +
+			"shared a second is read from the ids and counted, never assumed.",
 		Assumptions: []string{
 			"process death only (SIGKILL): completed write(2)/rename(2)/unlink(2) calls persist in order; power-loss reordering is out of scope",
 			"the on-disk tree at an instant is the post-crash state: the file store caches nothing across operations (each call builds a new mbox and re-reads index.gob)",
 			"orphan .raw files, empty directories and a leftover index.gob.tmp are invisible to readers and not judged",
 			"an add that triggers cap eviction may be observed after any number of its evictions (each eviction is its own logical step)",
+			"restart stream: ids are opaque (only distinctness within the mailbox is demanded); their timestamp prefix is read for evidence only; the wait for the beginning of a wall-clock second is scheduling, no clock value enters a verdict",
 			"partial write(2) of a regular file is modelled at page granularity only in the synthesised states; strace kills land on syscall boundaries",
 		},
 		MinObs: minObs,
@@ -104,7 +111,14 @@ func minObs(tier string) map[string]int64 {
 	m := map[string]int64{"crash_states_hook": 300, "crash_states_synth": 500, "crash_states_selfkill": 100,
 		"add_body_gt64k": 1, "add_body_4k_64k": 1, "big_index_cases": 3,
 		"index_gt_4096_bytes": 3, "neighbour_level2_cases": 3}
+	// restart stream: episodes judged, and among them those in which the restarted process really
+	// delivered within the wall-clock second of the dead one (read from the ids) - in general, after
+	// 2+ complete deliveries, and with an orphan content file longer than the next delivery.
+	m["restart_episodes"], m["restart_same_second"] = 30, 10
+	m["restart_same_second_2plus_complete"], m["restart_same_second_orphan_longer_than_next"] = 4, 3
 	if tier == "thorough" {
+		m["restart_episodes"], m["restart_same_second"] = 300, 100
+		m["restart_same_second_2plus_complete"], m["restart_same_second_orphan_longer_than_next"] = 40, 30
 		m["crash_states_hook"] = 3000
 		m["crash_states_synth"] = 5000
 		m["crash_states_selfkill"] = 1000
@@ -138,6 +152,11 @@ func run(c *fw.Ctx) {
 	c.Cases("crash", n, func(i int, r *fw.Rand) {
 		k := &caseRun{c: c, r: r, idx: i, kind: kinds[i%len(kinds)], variant: i / len(kinds)}
 		k.run()
+	})
+	// Crash and restart in fresh processes within one wall-clock second (restart.go).
+	c.Cases("restart", c.N(48, 400), func(i int, r *fw.Rand) {
+		e := &restartRun{c: c, r: r, idx: i}
+		e.run()
 	})
 }
 
